@@ -124,9 +124,10 @@ class SimWBEMServer:
             # (VALUE.OBJECT | VALUE.OBJECTWITHLOCALPATH | VALUE.OBJECTWITHPATH)
             if o.path is None:
                 return X.VALUE_OBJECT(o.tocimxml(ignore_path=True))
-            return X.VALUE_OBJECTWITHPATH(
-                self._inst_path(o.path, ns, True).tocimxml(),
-                o.tocimxml(ignore_path=True))
+            lp = self._inst_path(o.path, ns, True)
+            lp.host = None
+            return X.VALUE_OBJECTWITHLOCALPATH(
+                lp.tocimxml(), o.tocimxml(ignore_path=True))
         if isinstance(o, CIMInstance):
             if op == 'EnumerateInstances':
                 return X.VALUE_NAMEDINSTANCE(
